@@ -32,6 +32,12 @@ func parserScope(c *Ctx) []*ssa.Function {
 
 func c12() []*Ob {
 	return []*Ob{
+		{Prop: "C12", ID: "C12.12", Engine: "TYPESTATE(use after put)", Floor: 5,
+			Desc:  "a parsed query is made of its own text: a pooled object is not used after a hand-back that is not deferred (shared rule with C09.9) — parseCompositeToken that puts its bytes.Buffer back one statement before b.String() lets a query parsed in parallel overwrite the field name, value or pipe field of this one: the tree that is searched means something else than the text",
+			Check: shared("C09.9")},
+		{Prop: "C12", ID: "C12.13", Engine: "ALIAS(pooled buffer view)", Floor: 1,
+			Desc:  "... and no unsafe string view of a pooled buffer leaves the function that holds it (shared rule with C11.10)",
+			Check: shared("C11.10")},
 		{Prop: "C12", ID: "C12.11", Engine: "PROV(parse inputs)", Floor: 2,
 			Desc:  "a query means what the current mapping makes of it: every AST GrpcV1.parseQuery returns derives from parser.ParseSeqQL / parser.ParseQuery called in the same request with the provider's GetMapping(); an AST taken from a memo is accepted only when the lookup key derives from GetMapping() as well — a cache keyed by the query text alone outlives a mapping reload (keyword to text, field removed) and the store keeps searching with a tree that a fresh parse would not produce. The rule does not judge a cache that is invalidated by other means: it reports it",
 			Check: func(c *Ctx) { parsedAgainstCurrentMapping(c) }},
